@@ -87,6 +87,9 @@ _FIELD_VALUE_FORBIDDEN_CTL_RE: Final[Pattern[str]] = re.compile(
     r"[\x00-\x08\x0a-\x1f\x7f]"
 )
 VERSRE: Final[Pattern[str]] = re.compile(r"HTTP/(\d)\.(\d)", re.ASCII)
+# A request-target never contains control characters or whitespace
+# https://www.rfc-editor.org/rfc/rfc9112#section-3.2
+_REQUEST_TARGET_FORBIDDEN_RE: Final[Pattern[str]] = re.compile(r"[\x00-\x20\x7f]")
 DIGITS: Final[Pattern[str]] = re.compile(r"\d+", re.ASCII)
 HEXDIGITS: Final[Pattern[bytes]] = re.compile(rb"[0-9a-fA-F]+")
 
@@ -675,6 +678,12 @@ class HttpRequestParser(HttpParser[RawRequestMessage]):
         if match is None:
             raise BadStatusLine(line)
         version_o = HttpVersion(int(match.group(1)), int(match.group(2)))
+
+        if _REQUEST_TARGET_FORBIDDEN_RE.search(path):
+            # e.g. a bare LF or CR inside the request line
+            raise InvalidURLError(
+                path.encode(errors="surrogateescape").decode("latin1")
+            )
 
         try:
             if method == "CONNECT":
